@@ -2398,8 +2398,11 @@ class VM:
                 if idx >= 0 and str(idx) == key_str:
                     obj.set_index(idx, value)
                     return
-            except (ValueError, IndexError):
+            except ValueError:
                 pass
+            except IndexError:
+                # stricter mode: arrays have no holes, only index == length appends
+                raise JSTypeError(f"Array index {key_str} is out of bounds")
             # If key looks like a number but isn't a valid integer index, throw
             # This includes NaN, Infinity, -Infinity, floats like "1.2"
             invalid_keys = ("NaN", "Infinity", "-Infinity")
